@@ -111,9 +111,14 @@ def check(ctx, case):
                 bad = [repr(x) for x in _numbers_of_shape(R) if not _wf(x)]
                 if bad:
                     fails.append(Fail(kind="O", what="operator result has a coordinate that is not a well-formed Fraction", op=op, impl=bad[:3]))
-                ar = I.IntegrateShape.polynomial(R, 1, 1)
-                if not _wf(ar):
-                    fails.append(Fail(kind="O", what="moment of a rational polygon is not an exact rational", op=op, impl=repr(ar)))
+                for ex, ey in ((1, 1), (2, 0), (0, 2), (4, 1)):
+                    ar = I.IntegrateShape.polynomial(R, ex, ey)
+                    want = sum(O.moment_jordan(j, ex, ey) for j in O.shape_jordans(I.shape_data(R)))
+                    if not _wf(ar):
+                        fails.append(Fail(kind="O", what="moment of a rational polygon is not an exact rational", op=op, impl=repr(ar)))
+                    elif F(ar) != want:
+                        fails.append(Fail(kind="O", what="moment x^%d y^%d of a rational polygon is not the exact value" % (ex, ey), op=op,
+                                          impl=repr(ar), expected=want))
             rd = ("ok", I.shape_data(R))
             if rd != rr:
                 fails.append(Fail(kind="O", what="int / Fraction / mixed inputs give different results", op=op, impl=rd, expected=rr))
@@ -172,8 +177,9 @@ def check(ctx, case):
             fails.append(Fail(kind="O", what="move/scale produced a non-exact coordinate", impl=repr(got[:2])))
         elif [tuple(map(F, p)) for p in got] != want:
             fails.append(Fail(kind="O", what="move/scale on rationals is not exact", impl=got, expected=want))
-        ar = I.IntegrateShape.polynomial(S, 0, 0)
-        if not _wf(ar) or F(ar) != O.moment_jordan(G.verts_to_jordan(want), 0, 0):
-            fails.append(Fail(kind="O", what="area after move/scale is not the exact rational", impl=repr(ar)))
+        for ex, ey in ((0, 0), (2, 0), (1, 2)):
+            ar = I.IntegrateShape.polynomial(S, ex, ey)
+            if not _wf(ar) or F(ar) != O.moment_jordan(G.verts_to_jordan(want), ex, ey):
+                fails.append(Fail(kind="O", what="moment x^%d y^%d after move/scale is not the exact rational" % (ex, ey), impl=repr(ar)))
         return fails
     return fails
